@@ -135,6 +135,17 @@ var props = map[string]propCfg{
 		}, modelAssumptions...),
 		MinNontriv: 200,
 	},
+	"C13": {
+		Quick:    tierCfg{Shards: 8, Checks: 1500, Timeout: 3 * time.Minute},
+		Thorough: tierCfg{Shards: 16, Checks: 20000, Timeout: 30 * time.Minute},
+		Rule: "a base patch of one or two changes (mined pattern on a real host, see C01; optionally followed by a change that matches code the first one introduces) is rendered plainly and re-rendered under a drawn composition of layout transformations: '#' lines (above the patch, detached from the header, inside the metavariable section, inside the diff, trailing), blank lines (before the first header, inside the diff, trailing), naming the change, new description lines, consistent renaming of all metavariables to fresh identifiers, regrouping / reordering / ';'-joining the declarations, extra indentation, wrapping after every comma on all lines, joining context lines that end in ',' or '(' with the next context line, writing elision-free context lines as identical -/+ pairs and identical -/+ pairs as context lines. Oracle (metamorphic): base and variant are both rejected, or both results are equal as canonical syntax trees; a sample through the CLI checks that stderr carries exactly the '#' lines directly above a change's header. " +
+			"Non-trivial = the base patch changes the file and the variant differs from it in >= 2 transformation classes; distinct by sha256(base, variant, file).",
+		Assumptions: append([]string{
+			"metavariables that name an import are not renamed (documented exception); generated base patches do not contain any",
+			"wrapping is done only after commas (never where a semicolon would be inserted) and identically on every line of both sides",
+		}, modelAssumptions[:2]...),
+		MinNontriv: 100,
+	},
 }
 
 var modelAssumptions = []string{
